@@ -664,6 +664,29 @@ def install(ip):
     ip.ext_modules["typing"].attrs["get_args"] = Builtin("get_args", lambda ip, a, k: a[0].args if isinstance(a[0], GenericAlias) else ())
     ip.ext_modules["typing"].attrs["get_origin"] = Builtin("get_origin", lambda ip, a, k: a[0].origin if isinstance(a[0], GenericAlias) else None)
 
+    from .values import NumStr
+
+    def numstr_attr(ip, s, name):
+        if name == "startswith":
+            def sw(ip_, a, k):
+                p = a[0]
+                if not isinstance(p, str) or s.base != 2:
+                    raise Unsupported("NumStr.startswith")
+                if any(ch not in "01" for ch in p):
+                    return False
+                n = ip.to_z3(s.n, "int")
+                # the rendering has exactly `width` digits iff n < base**width (the code keeps ids below 2**160)
+                if ip.path.branch(z3.Or(n < 0, n >= 2 ** s.width)):
+                    raise Unsupported("number string wider than its format width")
+                if len(p) > s.width:
+                    return False
+                if not p:
+                    return True
+                return ip.wrap(n / z3.IntVal(2 ** (s.width - len(p))) == int(p, 2), "bool")
+            return Builtin("NumStr.startswith", sw)
+        raise Unsupported("NumStr attribute " + name)
+    ip.attr_handlers[NumStr] = numstr_attr
+
     ip.call_handlers = {}
     ip.call_handlers[Partial] = lambda ip, p, a, k: ip.call(p.f, p.args + list(a), {**p.kwargs, **k})
     ip.call_handlers[MethodCaller] = lambda ip, m, a, k: ip.call(ip.do_getattr(a[0], m.name), m.args, m.kwargs)
